@@ -5,18 +5,25 @@ LEVEL_TEXT = (
     "Lean 4 theorems over the model of the Cardano compiler with every conversion written as the Rust performs it: "
     "whenever compilation succeeds the fee, both validity bounds, withdrawal and donation amounts and every mint "
     "quantity are the exact integers their expressions denote and lie in their ledger ranges (u64, non-zero i64); "
+    "for every output whose asset list holds in-range entries (lovelace in [0, 2^64), native amounts >= 0) the coin is "
+    "exactly the sum of the lovelace entries and, for every asset class, the quantity is exactly the sum of the "
+    "entries of that class - nothing dropped, wrapped or moved to another class - and every emitted number fits 64 "
+    "bits (C02_output_exact_partial, C02_output_block_exact); "
     "out-of-range values make the model return an error. The two remaining silent alterations (negative lovelace "
     "wraps, negative native asset dropped - both pinned by hashes in the repository's own tests) are proved as "
     "witnesses and reported as known findings. The reducer's checked arithmetic is covered by the L3 correspondence."
 )
 LEVEL_NOTE = (
-    cc.MODEL_NOTE + ". Partial: exactness of output lovelace/native amounts holds only for non-negative entries "
-    "(known findings C02-lovelace-wraps, C02-negative-asset-dropped); the balance corollary is checked per case, not proved."
+    cc.MODEL_NOTE + ". Partial: exactness of output lovelace/native amounts is proved under the explicit hypothesis EntriesInRange "
+    "(the two ways out of it are the known findings C02-lovelace-wraps, C02-negative-asset-dropped, with proved "
+    "witnesses); the balance corollary is checked per case, not proved."
 )
 PROP = "C02"
-TARGETS = ["Tx3Proofs.C02"]
+TARGETS = ["Tx3Proofs.C02", "Tx3Proofs.C02Outputs"]
 THEOREMS = ["Tx3.C02_fee_exact", "Tx3.C02_validity_exact", "Tx3.C02_mint_range", "Tx3.C02_withdrawal_exact",
-            "Tx3.C02_donation_exact", "Tx3.C02_negative_lovelace_wraps", "Tx3.C02_negative_asset_dropped"]
+            "Tx3.C02_donation_exact", "Tx3.C02_negative_lovelace_wraps", "Tx3.C02_negative_asset_dropped",
+            "Tx3.compileValue_exact", "Tx3.compileValues_exact", "Tx3.assetQty_insertAsset",
+            "Tx3.C02_output_exact_partial", "Tx3.C02_output_block_exact"]
 ASSUMPTIONS = [cc.MODEL_NOTE,
                "pallas' CBOR encoder is not modelled: its output is read back by the independent Lean reader",
                "spec oracle: expected quantities are computed from the constant template by plain integer arithmetic in the driver"]
